@@ -75,60 +75,60 @@ type exitInfo struct {
 }
 
 type Exec struct {
-	ld       *Loader
-	vc       *VC
-	specs    *Specs
-	st       *State
-	top      *Frame
-	fr       *Frame
-	frames   int
-	heap0    map[string]Term
-	heapSort map[string]Sort
-	entry    *State
-	alloc0   Term
-	strs     map[string]Term
-	strNames map[string]string
-	floats   map[string]Term
-	floatNames map[string]string
-	cellRefs map[cellKey]Term
-	boxes    map[string]boxed
-	realFloats bool
-	stubsUsed map[string]bool
-	inlined   map[string]bool
-	calleesUsed map[string]bool
-	declSpec map[string]bool
-	safetyOnly bool // sweep mode: only automatic obligations
-	events   []string
-	modelSyms []string
-	modelLbls []string
-	paramVals map[string]Value // entry values by name (params, receiver, free vars)
-	retNames  []string
-	curPos    token.Pos
-	loopStack []*ssa.BasicBlock
-	lockHeld  map[string]bool
-	notes     []string
-	ranges    map[*ssa.Range]*rangeState
-	selectIdx map[*ssa.Select]Term
-	typeTags  []string
-	topMods   []modItem
-	frameSyms []string
-	loopWritesHeap map[string]map[string]bool
-	eventGuard Term
-	noFrame   bool
-	discovery bool
-	loopWritesSnap map[string]int
-	lockHook  func(p PtrV, write bool, pos token.Pos)
-	pcParts   map[string]pcPart
-	heapForms map[string]heapForm
-	specEq    bool
-	inYield   bool
-	loadInitial bool
-	loadObj   Term
-	curLoop   *loopInfo
-	mapWFDone map[string]bool
+	ld               *Loader
+	vc               *VC
+	specs            *Specs
+	st               *State
+	top              *Frame
+	fr               *Frame
+	frames           int
+	heap0            map[string]Term
+	heapSort         map[string]Sort
+	entry            *State
+	alloc0           Term
+	strs             map[string]Term
+	strNames         map[string]string
+	floats           map[string]Term
+	floatNames       map[string]string
+	cellRefs         map[cellKey]Term
+	boxes            map[string]boxed
+	realFloats       bool
+	stubsUsed        map[string]bool
+	inlined          map[string]bool
+	calleesUsed      map[string]bool
+	declSpec         map[string]bool
+	safetyOnly       bool // sweep mode: only automatic obligations
+	events           []string
+	modelSyms        []string
+	modelLbls        []string
+	paramVals        map[string]Value // entry values by name (params, receiver, free vars)
+	retNames         []string
+	curPos           token.Pos
+	loopStack        []*ssa.BasicBlock
+	lockHeld         map[string]bool
+	notes            []string
+	ranges           map[*ssa.Range]*rangeState
+	selectIdx        map[*ssa.Select]Term
+	typeTags         []string
+	topMods          []modItem
+	frameSyms        []string
+	loopWritesHeap   map[string]map[string]bool
+	eventGuard       Term
+	noFrame          bool
+	discovery        bool
+	loopWritesSnap   map[string]int
+	lockHook         func(p PtrV, write bool, pos token.Pos)
+	pcParts          map[string]pcPart
+	heapForms        map[string]heapForm
+	specEq           bool
+	inYield          bool
+	loadInitial      bool
+	loadObj          Term
+	curLoop          *loopInfo
+	mapWFDone        map[string]bool
 	lastCalleeGhosts map[string]TV
-	sconcatAx bool
-	lemmasUsed map[string]bool
+	sconcatAx        bool
+	lemmasUsed       map[string]bool
 }
 
 type boxed struct {
@@ -224,9 +224,15 @@ func (ex *Exec) hUpdate(key string, srt Sort, u heapUpd) {
 	ex.noteHeapWrite(key)
 }
 
-func (ex *Exec) hStore1(key string, srt Sort, r, v Term)      { ex.hUpdate(key, srt, heapUpd{kind: 1, r: r, v: v}) }
-func (ex *Exec) hStore2(key string, srt Sort, r, i, v Term)   { ex.hUpdate(key, srt, heapUpd{kind: 2, r: r, i: i, v: v}) }
-func (ex *Exec) hStoreRow(key string, srt Sort, r, row Term)  { ex.hUpdate(key, srt, heapUpd{kind: 3, r: r, v: row}) }
+func (ex *Exec) hStore1(key string, srt Sort, r, v Term) {
+	ex.hUpdate(key, srt, heapUpd{kind: 1, r: r, v: v})
+}
+func (ex *Exec) hStore2(key string, srt Sort, r, i, v Term) {
+	ex.hUpdate(key, srt, heapUpd{kind: 2, r: r, i: i, v: v})
+}
+func (ex *Exec) hStoreRow(key string, srt Sort, r, row Term) {
+	ex.hUpdate(key, srt, heapUpd{kind: 3, r: r, v: row})
+}
 
 // mergeHeap merges heap terms of one key over mutually exclusive path conditions.
 func (ex *Exec) mergeHeap(conds []Term, ts []Term, hint string) Term {
@@ -779,7 +785,7 @@ func (ex *Exec) mergeStates(sts []*State) *State {
 	}
 	out.pc = ex.vc.Define("pc", ex.simplifyOr(pcs))
 	// cells: only those present in all
-	for k := range sts[0].cells {
+	for _, k := range sortedCells(sts[0].cells) {
 		var vs []Value
 		all := true
 		for _, s := range sts {
@@ -1110,7 +1116,7 @@ func (ex *Exec) enterLoop(fr *Frame, li *loopInfo, st *State) {
 		}
 	}
 	cells, _ := ex.loopWrites(li)
-	for k := range st.cells {
+	for _, k := range sortedCells(st.cells) {
 		if k.frame == fr.id && cells[k.a] {
 			t := k.a.Type().(*types.Pointer).Elem()
 			st.cells[k] = ex.freshValue("h."+k.a.Comment, t, st.pc)
@@ -1232,4 +1238,24 @@ func (ex *Exec) simplifyOr(pcs []Term) Term {
 		cur = nd
 	}
 	return Or(cur...)
+}
+
+// sortedCells orders the local cells deterministically (frame, block, position) so that the generated
+// SMT scripts - and with them the solvers' behaviour - are the same on every run.
+func sortedCells(m map[cellKey]Value) []cellKey {
+	ks := make([]cellKey, 0, len(m))
+	for k := range m {
+		ks = append(ks, k)
+	}
+	sort.Slice(ks, func(i, j int) bool {
+		a, b := ks[i], ks[j]
+		if a.frame != b.frame {
+			return a.frame < b.frame
+		}
+		if a.a.Block().Index != b.a.Block().Index {
+			return a.a.Block().Index < b.a.Block().Index
+		}
+		return allocIndex(a.a) < allocIndex(b.a)
+	})
+	return ks
 }
